@@ -367,3 +367,42 @@ float_nearest.__harness__ = Harness(prop="C14", name="float_nearest", body=float
                                     bounds="integer mantissas |x| <= 2^53, prefixes with |p| <= 22 (10^|p| exact in binary64)",
                                     generalises="the mantissa as a binary64 value (QF_FP)", outside="|p| = 24; non-integer mantissas")
 REGISTRY.setdefault("C14", []).append(float_nearest.__harness__)
+
+
+@harness("C14", args="seed: int", concrete=True, sample=(0,),
+         bounds="concrete seed (no symbolic input, no model): the same post-conditions evaluated on the REAL hdl21.prefix over a fixed grid (9 unary and 3 binary operations and the comparisons x mantissas {0, +-1, +-15, +-999, 10^6+1, -(10^9+7)} x exponents {-2, 0, 1} x 6 prefix pairs); independent of the Decimal model, so it still decides something when the model gate fails")
+def real_grid(seed):
+    cs = (0, 1, -1, 15, -15, 999, -999, 10 ** 6 + 1, -(10 ** 9 + 7))
+    es = (-2, 0, 1)
+    pairs = ((0, 0), (3, -6), (-9, 0), (-3, -3), (2, 1), (24, -24))
+    bad = []
+    for c in cs:
+        for e in es:
+            for (p1, p2) in pairs:
+                for op in range(9):
+                    if op == 7 and abs(p1 - p2) > 12:
+                        continue
+                    try:
+                        ok = _ur(op, c, e, p1, p2, 0)
+                    except Exception as ex:
+                        ok = False
+                    if not ok:
+                        bad.append(("unary", op, c, e, p1, p2))
+                for c2 in (0, 7, -15):
+                    for op in range(3):
+                        try:
+                            ok = _br(op, c, e, c2, 0, p1, p2, 0)
+                        except Exception:
+                            ok = False
+                        if not ok:
+                            bad.append(("binary", op, c, e, c2, p1, p2))
+                    try:
+                        ok = _cr(c, e, c2, 0, p1, p2, 0)
+                    except Exception:
+                        ok = False
+                    if not ok:
+                        bad.append(("compare", c, e, c2, p1, p2))
+    env.reached()
+    WHY = globals().setdefault("WHY", {})
+    WHY["bad"] = bad[:5]
+    return not bad
